@@ -402,7 +402,11 @@ def task_remove_object():
                     ({'Name'}, lambda: z3.And(fld('id') == OBJ, ctx.data(fld('ctx')).tagvar != tag_const('Load'))),
                     ({'FunctionDef', 'AsyncFunctionDef', 'ClassDef'}, lambda: fld('name') == OBJ),
                     ({'arg'}, lambda: fld('arg') == OBJ),
-                    ({'Global', 'Nonlocal'}, None)):
+                    ({'ExceptHandler'}, lambda: (fld('name') == OBJ) if fld('name') is not None else z3.BoolVal(False)),
+                    ({'MatchAs', 'MatchStar'}, lambda: (fld('name') == OBJ) if fld('name') is not None else z3.BoolVal(False)),
+                    ({'MatchMapping'}, lambda: (fld('rest') == OBJ) if fld('rest') is not None else z3.BoolVal(False)),
+                    ({'alias'}, lambda: z3.Or(fld('name') == z3.StringVal('*'), fld('name') == OBJ, (fld('asname') == OBJ) if fld('asname') is not None else z3.BoolVal(False))),
+                    ({'Global', 'Nonlocal'}, lambda: z3.Bool('contains_%s_object' % ctx.data(fld('names')).name))):
                 if ed.tags & tags and ctx.branch(z3.Or([ed.tagvar == tag_const(t) for t in sorted(ed.tags & tags)])):
                     interp.narrow(e, ed.tags & tags)
                     if cond is not None:
@@ -410,7 +414,7 @@ def task_remove_object():
                     break
         if binds:
             ctx.check('C05/rebinds_object/a-node-that-binds-the-name-object-is-reported', z3.Implies(z3.Or(binds), rz), kind='post',
-                      detail='arbitrary node of ast.walk(module): store/del of object, def/class object, parameter object')
+                      detail='arbitrary node of ast.walk(module): store/del of object, def/class object, parameter, except/match capture, import (also star import), global/nonlocal declaration')
         else:
             ctx.check('C05/rebinds_object/cover-other-node-classes', True, kind='cover')
     if not hasattr(mod, 'rebinds_object'):
